@@ -294,11 +294,28 @@ fn poison(t: &mut Tape, prog: &mut Prog) -> String {
         }
         3 => {
             if let Item::Type(td) = &mut m.items[ii] {
-                let ty = match t.below(4) {
+                let ty = match t.below(6) {
                     0 => Ty::Unk(bu),
                     1 => Ty::n(*t.pick(&["u8", "u64", "u128", "void", "bool"])).arr(bu),
                     2 => Ty::n("u64").arr(bu).arr(bu),
-                    _ => Ty::Named(td.name.clone()).arr(bu),
+                    3 => Ty::Named(td.name.clone()).arr(bu),
+                    4 => {
+                        // deep nesting that still fits the few kilobytes the property speaks of
+                        let depth = 100 + t.below(600);
+                        let mut ty = Ty::n("u8");
+                        for k in 0..depth {
+                            ty = if k % 2 == 0 { ty.cptr() } else { ty.mptr() };
+                        }
+                        ty
+                    }
+                    _ => {
+                        let depth = 100 + t.below(600);
+                        let mut ty = Ty::n("u8");
+                        for _ in 0..depth {
+                            ty = ty.arr(1);
+                        }
+                        ty
+                    }
                 };
                 let pos = t.below(td.fields.len() as u64 + 1) as usize;
                 td.fields.insert(pos, Field::new(&format!("big{}", t.below(100)), ty));
@@ -576,7 +593,7 @@ impl Prop for Directed {
         "C12/directed".into()
     }
     fn rule(&self) -> String {
-        "grammar-directed hostile inputs: (a) accepted programs from the rich generator with 1-3 poisonings: a boundary integer (isize::MIN, -1, 0, 1, 2^31±1, 2^32, 2^63-1, values near usize::MAX/k) in a numeric position (field address, type size/align/singleton, vftable size, vfunc index, array length, unknown<N>, enum value, extern-type size/align, function and extern-value address; positive table sizes/indices capped at 65536), an unusual identifier (`_`, raw, unicode, names of generated items) in a name position, #[base] on arbitrary fields, by-value recursion, cyclic/self/empty `use`, odd module file names; name-clash perturbations (one program in three), a derived vftable block that disagrees with its base's table (one in three), doc comments with edge content (empty, multi-byte, quotes, braces, long; one in three); (b) syntactically valid random modules over the full grammar (gast) as one or two modules. Every case runs in a worker process under RLIMIT_AS 2 GiB / RLIMIT_CPU 20 s through parse_str, add_module+build+write_module and pyxis::build on disk. Oracle: every call returns; no panic (incl. arithmetic overflow: overflow checks on), abort, segfault or limit hit; both entry points agree on Ok/Err. Non-trivial: >=1 file parses".into()
+        "grammar-directed hostile inputs: (a) accepted programs from the rich generator with 1-3 poisonings: a boundary integer (isize::MIN, -1, 0, 1, 2^31±1, 2^32, 2^63-1, values near usize::MAX/k) in a numeric position (field address, type size/align/singleton, vftable size, vfunc index, array length, unknown<N>, pointer and array nesting 100-700 levels deep, enum value, extern-type size/align, function and extern-value address; positive table sizes/indices capped at 65536), an unusual identifier (`_`, raw, unicode, names of generated items) in a name position, #[base] on arbitrary fields, by-value recursion, cyclic/self/empty `use`, odd module file names; name-clash perturbations (one program in three), a derived vftable block that disagrees with its base's table (one in three), doc comments with edge content (empty, multi-byte, quotes, braces, long; one in three); (b) syntactically valid random modules over the full grammar (gast) as one or two modules. Every case runs in a worker process under RLIMIT_AS 2 GiB / RLIMIT_CPU 20 s through parse_str, add_module+build+write_module and pyxis::build on disk. Oracle: every call returns; no panic (incl. arithmetic overflow: overflow checks on), abort, segfault or limit hit; both entry points agree on Ok/Err. Non-trivial: >=1 file parses".into()
     }
     fn gen(&self, t: &mut Tape) -> Case {
         let w = if t.chance(1, 2) { 8 } else { 4 };
